@@ -21,7 +21,7 @@ NA = {
  "C15": "pure function of a directory's contents; the statement has no fault, crash or history clause",
  "C17": "pure function of one fitted curve",
 }
-PENDING = {"C16": "4.6", "C18": "4.7",
+PENDING = {"C18": "4.7",
            "C19": "4.8", "C20": "4.9"}
 
 CHECKS = {
@@ -40,6 +40,9 @@ CHECKS = {
  "C12": dict(engine="hash-walk", cat="exploration", ref="DESIGN.md 4.5",
    text="seeded one-thing-at-a-time walks (8-30 states) over curve data, pipeline, options, every fit-setting key, parameter attributes, 1-ulp single-sample perturbations, representation variants and don't-care edits on a live object; for every pair of states 'hash equal <=> the harness's own canonical form of the effective settings equal'; every state is also hashed on a fresh object that receives the stored settings in shuffled order and other representations; stored hash after fit_model == recomputed hash; sampled walks are re-executed in a fresh interpreter under another PYTHONHASHSEED. Which value pairs are visited is seeded sampling biased to encoder hazards - exploration, not enumeration.",
    note="canonical form is independent of nanite's byte encoding; invalid setting combinations (fitter sanity checks raise) are outside the hash's domain; direct column edits by the harness drop results like a setting edit"),
+ "C16": dict(engine="container-sim", cat="fault_enumeration", ref="DESIGN.md 4.6",
+   text="histories of saves into 1-2 rating containers (new curve, same curve again, similar and clearly different fits, several measurement files and enumerations) against a reference map of acknowledged entries, on real HDF5 files with a simulated clock; for every flagged save (one per history in the quick tier, every save in the thorough tier) a failure is injected at EVERY h5py write call of that save, before the call takes effect and after it, each on its own copy of the container: the container must stay readable and equal to the reference, then the save is retried and must be a proper acknowledged save. Complete over the fault positions of the flagged saves; exploration over histories.",
+   note="failures are exceptions the save observes (OSError at a write call); process death inside an HDF5 write is not modelled; 'clearly different' = fit differs by more than 0.1 % of its amplitude"),
 }
 
 
